@@ -316,6 +316,35 @@ func (c *checker) runSQL(k *kase) {
 	if !k.EndAbs {
 		a.TimeRange.End, b.TimeRange.End = 0, 0
 	}
+	if strings.Contains(k.SQL, "'a','b','c','a'") || strings.Contains(k.SQL, "'b','a','b','c','d'") {
+		// a list that repeats a value: an order that comes out of a Go map differs only now and then - 40 more parses
+		for i := 0; i < 40; i++ {
+			sx, errx := sql.Parse(k.SQL)
+			qx, okx := sx.(*stmt.Query)
+			if errx != nil || !okx {
+				c.violate(k, "parse-deterministic", "sql.Parse", fmt.Sprintf("same text accepted once and rejected later: %v\nsql: %s", errx, k.SQL))
+				return
+			}
+			x := *qx
+			x.TimeRange = a.TimeRange
+			if !k.StartAbs {
+				x.TimeRange.Start = 0
+			}
+			if !k.EndAbs {
+				x.TimeRange.End = 0
+			}
+			if k.StartAbs {
+				x.TimeRange.Start = qx.TimeRange.Start
+			}
+			if k.EndAbs {
+				x.TimeRange.End = qx.TimeRange.End
+			}
+			if d := same("Query", &a, &x, &c.norm); d != "" {
+				c.violate(k, "parse-deterministic", siteOf(d), fmt.Sprintf("parse %d of the same text differs from the first at %s\nsql: %s", i+3, d, k.SQL))
+				return
+			}
+		}
+	}
 	if d := same("Query", &a, &b, &c.norm); d != "" {
 		c.violate(k, "parse-deterministic", siteOf(d), fmt.Sprintf("two parses of the same text differ at %s\nsql: %s", d, k.SQL))
 	}
